@@ -318,6 +318,26 @@ def o4(ctx: Ctx, ties_matter: bool = True):
     if len(guards) != 1:
         return [ctx.ob("C08.O4", f, L, status=INCONCLUSIVE, detail=f"expected one guard per level, found {len(guards)}", construct="guard")]
     G = guards[0]
+    # a precondition wrapped around the whole cut (`if not candidates: continue`, inverted by the normaliser): the level is
+    # left uncut when it fails, which is only safe when there is nothing to cut
+    inner_ifs = [n for n in G.body if isinstance(n, ast.If)]
+    if not G.orelse and len(inner_ifs) == 1 and not any(isinstance(x, ast.Attribute) and x.attr == "limit" for x in ast.walk(G.test)) and any(isinstance(x, ast.Attribute) and x.attr == "limit" for x in ast.walk(inner_ifs[0].test)):
+        pre = _strip_not(G.test)
+        conj = pre.values if isinstance(pre, ast.BoolOp) and isinstance(pre.op, ast.And) else [pre]
+        cand_lists = {nm for nm, dd in defs.items() if any(isinstance(d_, (ast.ListComp, ast.Call)) and f"{cand_p}[" in canon(d_) for d_ in dd)}
+        for cj in conj:
+            t_ = canon(cj, defs)
+            raw = canon(cj)
+            if isinstance(cj, ast.Name) and cj.id in cand_lists or re.fullmatch(r"len\((\w+)\)(>0|!=0|>=1)", raw) and re.fullmatch(r"len\((\w+)\)(>0|!=0|>=1)", raw).group(1) in cand_lists:
+                continue  # nothing to cut
+            if f"{tree_p}.levels[{lv}+1]" in t_ or f"{tree_p}._levels[{lv}+1]" in t_:
+                obs.append(ctx.ob("C08.O4", f, G.test, status=VIOLATION, detail=f"the cut of a level is skipped unless `{norm(cj)}`: when the level below is still empty (or has no active deme) ALL `limit` slots are free and the candidates of one round can outnumber them, so the first round onto an empty level is unlimited", construct="guard"))
+                return obs
+            obs.append(ctx.ob("C08.O4", f, G.test, status=INCONCLUSIVE, detail=f"the cut of a level is only made under `{norm(cj)[:70]}`", construct="guard"))
+            return obs
+        # continue with the wrapped cut; statements of the wrapper body count as the loop body
+        L = ast.copy_location(ast.For(target=L.target, iter=L.iter, body=[x for x in L.body if x is not G] + list(G.body), orelse=[]), L)
+        G = inner_ifs[0]
     # ---- guard: A + len(C) > limit
     import copy
 
@@ -442,6 +462,13 @@ def o4(ctx: Ctx, ties_matter: bool = True):
         cdefs = [ast.copy_location(ast.ListComp(elt=comp0.elt, generators=comp0.generators), comp0)]
     ok_c = False
     D = None
+    # heapq.merge only interleaves its inputs: the result is best-first only if every parent's list already is, which no
+    # candidate generator is obliged to deliver
+    for dd in cdefs:
+        m0 = dd.args[0] if isinstance(dd, ast.Call) and norm(dd.func) in ("list", "tuple") and dd.args else dd
+        if isinstance(m0, ast.Call) and norm(m0.func).split(".")[-1] == "merge" and norm(m0.func) in ("merge", "heapq.merge") and any(isinstance(a_, ast.Starred) for a_ in m0.args):
+            obs.append(ctx.ob("C08.O4", f, dd, status=VIOLATION, detail=f"`{C}` is `{norm(dd)[:90]}`: heapq.merge interleaves the parents' lists without sorting them, so the list is best-first only if every parent's candidates already are (nothing obliges a candidate generator to that); read at the pivot index an unordered list lets more than limit - active candidates through", construct="sort"))
+            return obs
     if len(cdefs) == 1 and isinstance(cdefs[0], ast.ListComp) and len(cdefs[0].generators) == 2:
         g1, g2 = cdefs[0].generators
         if isinstance(g1.target, ast.Name) and isinstance(g2.target, ast.Name) and not g1.ifs and not g2.ifs and norm(cdefs[0].elt) == g2.target.id and canon(g2.iter) == f"{cand_p}[{g1.target.id}].individuals" and isinstance(g1.iter, ast.Name):
